@@ -210,7 +210,7 @@ def check_dialect(case, stats):
     proto_d, proto_en = gh.TokenMatcher(d), gh.TokenMatcher("en")
     gh.parse(text, matcher=proto_en)                  # the English prototype has handled a header document before it is copied
     body = "\n".join(lines[1:]) + "\n"
-    for how, clone in (("copy.copy", copy.copy), ("copy.deepcopy", copy.deepcopy), ("pickle round trip", lambda o: pickle.loads(pickle.dumps(o)))):
+    for how, clone in (("copy.copy", copy.copy), ("copy.deepcopy", copy.deepcopy), ("pickle round trip", gh.pickle_clone)):
         # two copies of one English prototype: the first reads the header document, then the second (and the prototype) read English ones
         fresh_en = gh.TokenMatcher("en")
         first, second, third = clone(fresh_en), clone(fresh_en), clone(proto_en)
